@@ -174,6 +174,7 @@ def plan(tier):
                 for b in range(len(alpha)):
                     units.append((si, ni, (a, b)))
     for ni in range(len(NEWLINES)):
+        units.append(('bytevalues', ni, None))
         units.append(('scale', ni, None))
         for period in PERIODS:
             units.append(('periodic', ni, period, tier != 'quick'))
@@ -196,8 +197,9 @@ def plan(tier):
         'bound': 'length <= %s' % '/'.join(str(m) for a, m in scopes),
         'exhaustive': True,
         'assumptions': [
-            'bytes outside the alphabet behave like the ordinary byte "a" '
-            '(split_lines only compares bytes with the newline)',
+            'in strings longer than 3 tokens, bytes outside the alphabet '
+            'behave like the ordinary byte "a" (every byte value and code '
+            'point 0..255 is tried in 11 positions of short strings)',
             'newline sequences limited to the ten the library can produce '
             'for LF/CRLF in ASCII-compatible, UTF-16 and UTF-32 codecs',
         ],
@@ -213,6 +215,8 @@ def run_unit(unit, tier):
         return run_scale_unit(unit[1])
     if unit[0] == 'periodic':
         return run_periodic_unit(*unit[1:])
+    if unit[0] == 'bytevalues':
+        return run_bytevalue_unit(unit[1])
     si, ni, prefix = unit
     alpha, maxlen = _scopes(tier)[si]
     name, newline = NEWLINES[ni]
@@ -327,6 +331,58 @@ def run_periodic_unit(ni, period, thorough):
     return acc
 
 
+def bytevalue_cases(ni):
+    """Every byte value (and, for multi-byte newlines, every code point
+    0..255 encoded like the newline's own characters) in every position
+    relative to newlines: alone, first, last unterminated line, between
+    newlines, doubled, after / before ordinary bytes."""
+    name, nlb = NEWLINES[ni]
+    codec = name.split('/', 1)[1]
+    out = []
+    seen = set()
+    for c in range(256):
+        toks = [bytes([c])]
+        try:
+            from mc.spec import enc_nobom
+            toks.append(enc_nobom(chr(c), codec))
+        except Exception:
+            pass
+        for t in toks:
+            if t in seen:
+                continue
+            seen.add(t)
+            a = b'a' * len(t)
+            for data in (t, t + nlb, nlb + t, a + nlb + t, t + nlb + a,
+                         nlb + t + nlb, t + t, a + nlb + t + t,
+                         a + nlb + a + nlb + t, nlb + nlb + t,
+                         a + t + nlb + t + a):
+                out.append(data)
+    return out
+
+
+def run_bytevalue_unit(ni):
+    acc = Acc()
+    name, nlb = NEWLINES[ni]
+    for i, data in enumerate(bytevalue_cases(ni)):
+        viols, nt = check_one(data, nlb)
+        acc.evals += 1
+        acc.states += 1
+        acc.transitions += 4
+        acc.validated += 1
+        if nt:
+            acc.nontrivial += 1
+        for key, msg in viols:
+            acc.violation('%s:%s:bytevalue' % (key, name.split('/')[0]),
+                          msg[:300], {'kind': 'input',
+                                      'data': to_jsonable(data),
+                                      'newline': to_jsonable(nlb),
+                                      'suffix': ':bytevalue'})
+        acc.outcome('ok-nl' if nt else 'ok-no-nl')
+    acc.sample({'byte_values': 'every byte / code point 0..255 in 11 '
+                               'positions', 'newline': name}, 1)
+    return acc
+
+
 def run_scale_unit(ni):
     acc = Acc()
     for i, (name, data) in enumerate(scale_data()):
@@ -365,5 +421,7 @@ def replay(payload):
     name = [n for n, b in NEWLINES if b == newline]
     name = name[0] if name else 'custom'
     viols, nt = check_one(data, newline)
-    return [{'key': ('%s:%s' % (k, name.split('/')[0])).replace(' ', '_'),
-             'msg': m} for k, m in viols]
+    return [{'key': ('%s:%s%s' % (k, name.split('/')[0],
+                                  payload.get('suffix', ''))).replace(' ', '_'),
+             'msg': m[:300] if payload.get('suffix') else m}
+            for k, m in viols]
